@@ -36,14 +36,28 @@ KNOBS = {'n_min': 2, 'n_max': 4,
          'n_actions': [1, 1, 2, 3, 4], 'fence': 'false', 'early_p': 0.1}
 
 
+# an additional family: a duplicate appears while another instance than the Master drives a long start sequence
+# (programs that take 15-30 s to start, restarted by a user request received by a non-Master): the Master, which has
+# no job of its own, conciliates at once
+SLAVE_KNOBS = {'n_min': 3, 'n_max': 4,
+               'apps': {'n_apps': (2, 3), 'n_progs': (1, 3), 'seq_max': 2, 'startsecs': (15, 30), 'managed_p': 1.0,
+                        'autorestart': ('false',)},
+               'behaviours': ['normal'],
+               'actions': ['restart_application', 'start_application'], 'then': ['dup', 'dup'],
+               'n_actions': [1], 'gaps': [1.0, 3.0, 6.0], 'fence': 'false', 'early_p': 0.0, 'off_master_p': 1.0,
+               'formation_ticks': 80}
+SLAVE_COUNT = {'quick': 120, 'thorough': 2000}
+
+
 def plan(tier, seed):
-    return [{'seed': seed * 1000003 + i} for i in range(COUNT[tier])]
+    return [{'seed': seed * 1000003 + i} for i in range(COUNT[tier])] + \
+        [{'seed': seed * 1000003 + 800000 + i, 'family': 'slave-at-work'} for i in range(SLAVE_COUNT[tier])]
 
 
 def run_case(case):
     tracker = Tracker()
     mon = ConciliationMonitor(tracker)
-    run = Run(case, KNOBS, [tracker, mon])
+    run = Run(case, SLAVE_KNOBS if case.get('family') == 'slave-at-work' else KNOBS, [tracker, mon])
     violations = run.execute()
     nontrivial = mon.counters.get('conciliation_rounds', 0) > 0
     return {'violations': violations, 'counters': run.counters,
